@@ -85,6 +85,8 @@ type walEvents interface {
 	// onCall is invoked before every WAL call (kind: append, appendsync, sync, trunc, rev, reader, read, last, first, clear):
 	// the schedule can park the handler that makes the call right there
 	onCall(kind string)
+	// onFlush is the hook of the WAL's current segment: "cur.Flush:pre" / "cur.Flush:post"
+	onFlush(point string)
 }
 
 type gateFactory struct {
@@ -99,6 +101,7 @@ func (f *gateFactory) NewWal(namespace string, shard int64, p wal.CommitOffsetPr
 		return nil, err
 	}
 	g := &gateWal{inner: w, ev: f.ev, arrivals: make(chan *arrival, 64)}
+	g.instrument()
 	f.ev.onNewWal(g)
 	return g, nil
 }
@@ -118,6 +121,9 @@ type gateWal struct {
 }
 
 func (g *gateWal) Close() error { return g.inner.Close() }
+
+// instrument (re-)installs the Flush hook on the current segment (rollover, truncation and clear replace the segment)
+func (g *gateWal) instrument() { wal.VerifInstrumentFlush(g.inner, g.ev.onFlush) }
 func (g *gateWal) Append(e *proto.LogEntry) error {
 	err := g.inner.Append(e)
 	if err == nil {
@@ -128,6 +134,7 @@ func (g *gateWal) Append(e *proto.LogEntry) error {
 func (g *gateWal) AppendAsync(e *proto.LogEntry) error {
 	g.ev.onCall("append")
 	err := g.inner.AppendAsync(e)
+	g.instrument()
 	if err == nil {
 		g.ev.onAppended(g, ent{e.Term, e.Offset, payOf(e.Value)}, false)
 	}
@@ -145,7 +152,9 @@ func (g *gateWal) AppendAndSync(e *proto.LogEntry, cb func(error)) {
 	g.mu.Lock()
 	seq := g.writeSeq
 	g.mu.Unlock()
-	if err := g.inner.AppendAsync(e); err != nil {
+	err0 := g.inner.AppendAsync(e)
+	g.instrument()
+	if err := err0; err != nil {
 		g.mu.Lock()
 		g.lastTag = seq
 		g.mu.Unlock()
@@ -236,6 +245,7 @@ func (g *gateWal) nPending() int {
 func (g *gateWal) TruncateLog(o int64) (int64, error) {
 	g.ev.onCall("trunc")
 	h, err := g.inner.TruncateLog(o)
+	g.instrument()
 	if err == nil {
 		g.ev.onTruncated(g, h)
 	}
@@ -275,6 +285,7 @@ func (g *gateWal) FirstOffset() int64 { g.ev.onCall("first"); return g.inner.Fir
 func (g *gateWal) Clear() error {
 	g.ev.onCall("clear")
 	err := g.inner.Clear()
+	g.instrument()
 	if err == nil {
 		g.ev.onCleared(g)
 	}
